@@ -159,4 +159,27 @@ exporter's own options whenever batching is enabled (`batcherCfg.Enabled || queu
 explicit declarations the last one wins; no declaration = non-mutating -/
 def exporterCap (declared : Option Bool) (batching : Bool) : Bool := batching || declared.getD false
 
+/-! ## declared capability → advertised capability (consumer options, processor helper, exporter helper)
+
+`consumer.New*(f, opts…)` (`consumer/internal.NewBaseImpl`) starts from a default and applies the options in order; every
+`consumer.WithCapabilities(c)` overwrites.  The helpers only build that option list: the processor helper puts its default
+declaration(s) in front of the processor's own `WithCapabilities` options, the exporter helper appends one declaration behind the
+exporter's own when it batches.  The defaults are regenerated from the source (`Gen.FanoutShape`). -/
+
+/-- `Router.Consumer(ids…)` (`connector/{logs,metrics,traces}_router.go`, `connector/internal/router.go`): with `n` known pipelines
+`0 … n-1`, the selection is accepted iff it is non-empty and every id is known; the consumer returned is then the fan-out over the
+selected pipelines' consumers IN THE ORDER GIVEN, repeats included -/
+def routerSelect (n : Nat) (sel : List Nat) : Option (List Nat) :=
+  if sel.isEmpty then none else if sel.all (· < n) then some sel else none
+
+def applyCaps (dflt : Bool) : List Bool → Bool
+  | [] => dflt
+  | c :: cs => applyCaps c cs
+
+def processorCapH (consumerDefault : Bool) (helperDefaults decls : List Bool) : Bool :=
+  applyCaps consumerDefault (helperDefaults ++ decls)
+
+def exporterCapH (consumerDefault batchDeclares : Bool) (decls : List Bool) (batching : Bool) : Bool :=
+  applyCaps consumerDefault (decls ++ if batching then [batchDeclares] else [])
+
 end OtelVerif.C06
